@@ -51,6 +51,8 @@ func rItem(e rEntry) ap.Item {
 		return ap.IRI(strings.Replace(b, "example.com", "EXAMPLE.COM", 1))
 	case "slash":
 		return ap.IRI(b + "/")
+	case "pathcase": // path letter case AND a trailing slash at once
+		return ap.IRI(strings.Replace(b, "/actors/", "/Actors/", 1) + "/")
 	case "actor":
 		return &ap.Actor{ID: ap.IRI(b), Type: ap.PersonType, Inbox: ap.IRI(b + "/inbox")}
 	case "object":
@@ -96,6 +98,8 @@ func rProject(it ap.Item) rEntry {
 		return rEntry{rWho(s), "https"}
 	case strings.HasPrefix(s, "http://EXAMPLE.COM/actors/"):
 		return rEntry{rWho(s), "upper"}
+	case strings.Contains(s, "/Actors/"):
+		return rEntry{rWho(strings.TrimSuffix(strings.Replace(s, "/Actors/", "/actors/", 1), "/")), "pathcase"}
 	case strings.HasSuffix(s, "/"):
 		return rEntry{rWho(strings.TrimSuffix(s, "/")), "slash"}
 	default:
@@ -275,7 +279,7 @@ func init() {
 			return err
 		}
 		rng := rand.New(rand.NewSource(seed()))
-		forms := []string{"iri", "https", "upper", "slash", "actor", "object"}
+		forms := []string{"iri", "https", "upper", "slash", "pathcase", "actor", "object"}
 		ent := func(nilOK bool) rEntry {
 			switch r := rng.Intn(12); {
 			case r == 0 && nilOK:
